@@ -491,7 +491,8 @@ C16_AtRest == Quiescent => \A j \in Jobs : exits[j] >= 1 /\ E.jst[ToString(j)] #
 C17_NonNeg == E.ev = "ret" /\ E.op \in {"NumPending", "QPending", "NumProcessing", "NumIdle"} => E.v >= 0
 C17_PendingBound == IsRet("QPending") => E.v <= Cardinality({j \in Jobs : QOf(j) = E.qi /\ sub[j] \in {"calling", "acc", "unk"} /\ exits[j] = 0})
 C17_WorkerPendingBound == IsRet("NumPending") => E.v <= Cardinality({j \in Jobs : sub[j] \in {"calling", "acc", "unk"} /\ exits[j] = 0})
-C17_ProcessingBound == IsRet("NumProcessing") => E.v <= concMax
+C17_ProcessingBound == /\ IsRet("NumProcessing") => E.v <= concMax
+                       /\ E.ev \in {"call", "ret", "enter", "exit", "deq", "quiescent"} => E.curmax <= concMax        \* (gated: the counter at every hook)
 C17_MetricsBound == IsRet("Metrics") => /\ E.msub <= Cardinality({j \in Jobs : sub[j] # "none"})
                                         /\ E.mcomp <= Cardinality({j \in Jobs : exits[j] >= 1})
                                         /\ E.msucc + E.mfail <= Cardinality({j \in Jobs : exits[j] >= 1})
@@ -511,7 +512,18 @@ C18_IdleAtLeastOne == RunningAtRest => E.idle >= 1
 MinIdle == Max({(Min(concNow) * (IF hdr.ratio = 0 THEN 1 ELSE hdr.ratio)) \div 100, 1})
 C18_Trimmed == RunningAtRest /\ hdr.expiry > 0 /\ E.settled => E.idle <= Max({(Max(concNow) * (IF hdr.ratio = 0 THEN 1 ELSE hdr.ratio)) \div 100, 1})
 C18_NoLeak == Quiescent /\ ~overlap /\ ws = "stopped" /\ E.wss = "Stopped" /\ E.blocked = <<>> => E.cloop = 0 /\ E.cpool = 0 /\ E.creaper = 0 /\ E.cctxl = 0
-C18_OneLoop == RunningAtRest /\ ~overlap => E.cloop = 1 /\ E.creaper = (IF hdr.expiry > 0 THEN 1 ELSE 0)
+C18_OneLoop == RunningAtRest /\ ~overlap => E.cloop = 1 /\ E.creaper = (IF hdr.expiry > 0 THEN 1 ELSE 0) /\ E.cctxl <= (IF hdr.ctx THEN 1 ELSE 0)
+
+---- \* a panic of the library that kills the process is a failure of whatever the episode was to show: the calls in progress never
+\* return a result (C14), accepted jobs are never run (C01, C03), barriers never return (C06), nothing is stopped or trimmed (C18), ...
+C01_NoCrash == ~crashed
+C03_NoCrash == ~crashed
+C06_NoCrash == ~crashed
+C09_NoCrash == ~crashed
+C11_NoCrash == ~crashed
+C13_NoCrash == ~crashed
+C14_NoCrash == ~crashed
+C18_NoCrash == ~crashed
 
 ---- \* C19
 C19_NoRace == ~raced
